@@ -35,10 +35,13 @@ func (db *DB) verifEvent(name string, txid common.Txid) {
 		return
 	}
 	if db.freelist != nil {
-		free, pend, readers := fl.VerifSnapshot(db.freelist)
+		free, pend := fl.VerifSnapshot(db.freelist)
 		f["free"] = free
 		f["pend"] = pend
-		f["readers"] = readers
+		if name == "BeginWrite" {
+			// metalock is held here, so the reader registry may be read as well
+			f["readers"] = fl.VerifReaders(db.freelist)
+		}
 		f["freeN"] = db.freelist.FreeCount()
 		f["pendN"] = db.freelist.PendingCount()
 	}
